@@ -10,7 +10,7 @@ Definition pend (s : st) : list nat := chain s ++ walk s ++ acc s. (* subscribed
 
 Definition parks (k : wkind) : bool := match k with WCoro | WCallback | WCoroHas => true | _ => false end.
 Definition parked_pc (k : wkind) : wpc := if parks k then WParked else WFlag.
-Definition presub (pc : wpc) : bool := match pc with WPre | WReady | WSub _ _ => true | _ => false end.
+Definition presub (pc : wpc) : bool := match pc with WPre | WReady | WSub _ _ | WStart => true | _ => false end.
 
 (* the waiter view of thread j *)
 Definition W (s : st) (j : nat) : option (wkind * wpc * bool) :=
@@ -150,7 +150,8 @@ Qed.
 Lemma init_W ops w k pc f : W (init ops) w = Some (k, pc, f) -> presub pc = true /\ f = false.
 Proof.
   intros H. apply W_T in H. apply init_thrs in H.
-  destruct H as [(k' & E)|[E|[(k' & E)|E]]]; inversion E; subst; split; reflexivity.
+  destruct H as [(k' & E)|[E|(k' & pc' & E & Q)]]; inversion E; subst; split; try reflexivity.
+  destruct Q as [->|[->| ->]]; reflexivity.
 Qed.
 
 Lemma inv2_init ops : Inv2 (init ops).
@@ -689,9 +690,9 @@ Proof.
     - intros b Q. inn. destruct Q as [Q|[Q|[]]]; [auto|]. inversion Q. unfold slot_ready. rewrite SR. auto.
     - apply wf_snoc; [exact J14|exact Logic.I]. }
   destruct J0 as (J0 & A0 & TR0).
-  set (l := if is_async k then rot_last (acc s) else acc s).
+  set (l := if pops k then rot_last (acc s) else acc s).
   assert (PL : Permutation l (acc s0)).
-  { rewrite A0. subst l. destruct (is_async k); [apply rot_last_perm|apply Permutation_refl]. }
+  { rewrite A0. subst l. destruct (pops k); [apply rot_last_perm|apply Permutation_refl]. }
   pose proof (inv2_perm_acc s0 l J0 PL) as J1.
   assert (E0 : set_acc s0 l = set_acc (set_acc s0 l) l) by reflexivity.
   pose proof (inv2_resume_all l (set_acc s0 l) J1) as J2.
@@ -742,7 +743,8 @@ Proof.
         apply R7. exact Ht.
     + unfold enabled in E. fold (T s i) in E. rewrite Ht in E. discriminate.
   - pose proof Ht as HW. apply W_T in HW.
-    destruct pc as [| |r e| | |o]; cbn [fst].
+    destruct pc as [| |r e| | |o|]; cbn [fst].
+    7:{ eapply inv2_w_presub; [exact J|exact HW|reflexivity|destruct k; reflexivity]. }
     + destruct (slot s) eqn:SL.
       * eapply inv2_w_presub; [exact J|exact HW|reflexivity|reflexivity].
       * eapply inv2_w_refused; [exact J|exact HW|reflexivity|exact SL].
@@ -956,7 +958,7 @@ Proof.
       - cbn [set_thr thrs]. rewrite set_nth_length, EX. reflexivity.
       - eapply same_TR_trans; [apply (same_TR_fields s X EX)|].
         eapply same_TR_set_w. unfold T. rewrite EX. exact Ht. }
-    destruct pc as [| |r e| | |o]; cbn [fst]; try (destruct (slot s)); try (destruct (onat_eqb (head l) e));
+    destruct pc as [| |r e| | |o|]; cbn [fst]; try (destruct (slot s)); try (destruct (onat_eqb (head l) e));
       try (apply G; reflexivity); apply TRpres_same; try reflexivity; apply same_TR_refl.
 Qed.
 
@@ -975,7 +977,7 @@ Proof.
     + intros j k H. destruct (Nat.lt_ge_cases j (length (flat_map decode_thr ops))) as [L|L].
       * rewrite nth_error_app1 in H by exact L. apply nth_error_In in H. apply in_flat_map in H.
         destruct H as (l & _ & H). apply decode_thr_initial in H.
-        destruct H as [(k' & Q & _)|[(k' & Q)|Q]]; inversion Q.
+        destruct H as [(k' & Q & _)|(k' & pc' & Q & _)]; inversion Q.
       * assert (LT : (j < length (flat_map decode_thr ops ++ [TR KDtor RXWait]))%nat) by (apply nth_error_Some; congruence).
         rewrite app_length in LT. cbn [length] in LT. lia.
   - destruct IH as [K1 K2 K3]. destruct (step_TRpres s i E) as (PL & PT & PB).
